@@ -74,7 +74,7 @@ func RunNewEpic(opts GlobalOptions) error {
 		if err != nil {
 			return err
 		}
-		created, err := createTask(dir, opts, "", true, title, body)
+		created, err := createTask(dir, opts, "", true, title, body, nil)
 		if err != nil {
 			return err
 		}
@@ -92,7 +92,7 @@ func RunNewEpic(opts GlobalOptions) error {
 		if err != nil {
 			return err
 		}
-		created, err := createTask(dir, opts, "", true, title, opts.BodyFlag)
+		created, err := createTask(dir, opts, "", true, title, opts.BodyFlag, nil)
 		if err != nil {
 			return err
 		}
@@ -125,7 +125,7 @@ func RunNewEpic(opts GlobalOptions) error {
 		return err
 	}
 
-	created, err := createTask(dir, opts, "", true, input.GetTitle(), input.GetBody())
+	created, err := createTask(dir, opts, "", true, input.GetTitle(), input.GetBody(), nil)
 	if err != nil {
 		return err
 	}
@@ -155,19 +155,12 @@ func RunNewTask(opts GlobalOptions) error {
 		if err != nil {
 			return err
 		}
-		created, err := createTask(dir, opts, opts.EpicFlag, false, title, body)
-		if err != nil {
-			return err
-		}
-
 		updates := buildFlagUpdates(opts)
 		delete(updates, "title")
 		delete(updates, "epic")
-		if len(updates) > 0 {
-			agentID := opts.AgentID
-			if err := applySetUpdates(dir, opts, created.ID, updates, agentID, true); err != nil {
-				return err
-			}
+		created, err := createTask(dir, opts, opts.EpicFlag, false, title, body, updates)
+		if err != nil {
+			return err
 		}
 
 		if opts.JSON {
@@ -192,19 +185,12 @@ func RunNewTask(opts GlobalOptions) error {
 		if err != nil {
 			return err
 		}
-		created, err := createTask(dir, opts, opts.EpicFlag, false, title, opts.BodyFlag)
-		if err != nil {
-			return err
-		}
-
 		updates := buildFlagUpdates(opts)
 		delete(updates, "title")
 		delete(updates, "epic")
-		if len(updates) > 0 {
-			agentID := opts.AgentID
-			if err := applySetUpdates(dir, opts, created.ID, updates, agentID, true); err != nil {
-				return err
-			}
+		created, err := createTask(dir, opts, opts.EpicFlag, false, title, opts.BodyFlag, updates)
+		if err != nil {
+			return err
 		}
 
 		if opts.JSON {
@@ -236,25 +222,19 @@ func RunNewTask(opts GlobalOptions) error {
 		return err
 	}
 
-	// Create the task
-	created, err := createTask(dir, opts, input.GetEpic(), false, input.GetTitle(), input.GetBody())
-	if err != nil {
-		return err
-	}
-
-	// If state/claim were provided, apply them via set logic
+	// State/claim/result are applied via set logic, atomically with the create.
+	var updates map[string]string
 	if input.State != nil || input.Claim != nil || input.ResultPath != nil {
-		updates := input.ToKeyValueMap()
-		// Remove fields already handled by createTask
+		updates = input.ToKeyValueMap()
+		// Remove fields handled by the create event itself
 		delete(updates, "title")
 		delete(updates, "body")
 		delete(updates, "epic")
-		if len(updates) > 0 {
-			agentID := opts.AgentID
-			if err := applySetUpdates(dir, opts, created.ID, updates, agentID, true); err != nil {
-				return err
-			}
-		}
+	}
+
+	created, err := createTask(dir, opts, input.GetEpic(), false, input.GetTitle(), input.GetBody(), updates)
+	if err != nil {
+		return err
 	}
 
 	if opts.JSON {
